@@ -71,7 +71,9 @@ def strategy():
                 'conflict': conflict_q, 'max_N_span': draw(st.sampled_from([None, None, 0, 5, 50])),
                 'entry': draw(st.sampled_from(['deduplicate_majority', 'deduplicate_majority', 'write_pysam'])),
                 # history: a consensus is requested when only the first k fragments are associated, then the molecule grows
-                'early_request': draw(st.sampled_from([None, None, None, 1, 2]))}
+                'early_request': draw(st.sampled_from([None, None, None, 1, 2])),
+                # a cap on the fragments per molecule: later fragments are counted in TF but do not contribute coverage
+                'cap': draw(st.sampled_from([None, None, None, 1, 2]))}
     return case()
 
 
@@ -339,7 +341,9 @@ def eval_api(case):
                 frs.append(fcls(reads, umi_hamming_distance=0))
             if not all(f.is_valid() for f in frs):
                 return out.label('skipped: generated fragment not valid')
-            m = mcls(frs[0], reference=fasta)
+            cap = case.get('cap')
+            m = mcls(frs[0], reference=fasta, **({'max_associated_fragments': cap} if cap else {}))
+            accepted = 1
             early = case.get('early_request')
             for fi, f in enumerate(frs[1:], start=1):
                 if early is not None and fi == early:
@@ -348,8 +352,15 @@ def eval_api(case):
                         out.label('consensus requested before the molecule was complete')
                     except Exception:
                         pass
-                if not m.add_fragment(f):
-                    return out.label('skipped: fragments not joinable')
+                try:
+                    if not m.add_fragment(f):
+                        return out.label('skipped: fragments not joinable')
+                    accepted += 1
+                except OverflowError:
+                    # the molecule is full: the fragment is counted (TF) but contributes no coverage
+                    out.label('fragments beyond the cap')
+            if cap:
+                desc = desc[:accepted]
             m.__finalise__()
             col = Collector(h)
             span = case['max_N_span']
